@@ -12,7 +12,7 @@ that has at least one row (mean/var compared exactly over the reals).
 import itertools
 
 from engine import dfrun as D
-from engine.symutil import Verdict
+from engine.symutil import Verdict, pick_bool
 from harness import dfcommon as DC
 
 META = {
@@ -21,7 +21,7 @@ META = {
                         "mean/var by column and by streaming series; elementwise expressions feeding reductions",
                "thorough": "<= 4 batches of <= 3 rows, total <= 6 rows"},
     "outside": ["IEEE rounding (mean/var are compared over the reals)", "std is checked as var (square root is irrational)",
-                "NaN inputs", "cudf", "string/categorical dtypes", "anything pandas does that mframe does not model"],
+                "NaN inputs for var/value_counts/streaming groupers", "cudf", "string/categorical dtypes", "anything pandas does that mframe does not model"],
     "stubs": DC.STUBS,
     "assumptions": ["mframe agrees with pandas on the operations used (validated on every run)"],
 }
@@ -47,10 +47,15 @@ def verdict_for(kind, shard, v):
     lens = shard["lens"]
     n = sum(lens)
     xs = list(v[:n])
-    ks = list(v[n:2 * n]) if len(v) >= 2 * n else None
+    gb = bool(spec.get("groupby"))
+    ks = list(v[n:2 * n]) if gb else None
+    if shard.get("nan"):
+        flags = v[len(v) - n:]
+        xs = [None if pick_bool(f) else x for x, f in zip(xs, flags)]
     batches = DC.make_batches(lens, xs, ks)
     vd = Verdict()
-    name = spec["op"] + ("/groupby-" + spec["groupby"] if spec.get("groupby") else "")
+    name = spec["op"] + ("/groupby-" + spec["groupby"] if spec.get("groupby") else "") + \
+        ("/nan" if shard.get("nan") else "")
     try:
         be, outs = DC.run_spec(kind, spec, batches)
     except ZeroDivisionError:
@@ -66,7 +71,10 @@ def verdict_for(kind, shard, v):
             continue                       # nothing is owed for an empty prefix
         exp = D.oracle(be, spec, batches, k)
         if not D.same(out[0], exp, as_map=as_map):
-            if sum(1 for L in lens[:k] if L == 0) and lens[0] == 0:
+            if exp is None and not isinstance(out[0], dict) and D.num_eq(out[0], 0):
+                # all rows seen so far are NaN: pandas says NaN, the streaming mean says 0
+                vd.add("all-nan-prefix-gives-0@%s" % name)
+            elif sum(1 for L in lens[:k] if L == 0) and lens[0] == 0:
                 vd.add("wrong-after-empty-first-batch@%s" % name)
             else:
                 vd.add("wrong-value@%s" % name)
@@ -188,6 +196,17 @@ def obligations(tier):
             obls.append({"name": name, "body": "body", "pre": "pre",
                          "shard": {"spec": spec, "lens": list(lens)},
                          "types": ["int"] * (2 * n if gb else n), "budget": B})
+    # NaN inputs: a symbolic flag per row turns the value into NaN
+    for spec in ([{"op": o} for o in ("sum", "count", "size", "mean")]
+                 + [{"op": o, "kind": "frame", "groupby": "column"} for o in ("sum", "count", "mean")]):
+        gb = bool(spec.get("groupby"))
+        for lens in ([(1, 1, 1), (2, 0, 1), (0, 2, 1)] if q else length_patterns(3, 2, 4)):
+            n = sum(lens)
+            name = "nan/%s%s/lens=%s" % (spec["op"], "/by-" + spec["groupby"] if gb else "",
+                                         "-".join(map(str, lens)))
+            obls.append({"name": name, "body": "body", "pre": "pre",
+                         "shard": {"spec": spec, "lens": list(lens), "nan": True},
+                         "types": ["int"] * (2 * n if gb else n) + ["bool"] * n, "budget": B})
     for e in EXPRS:
         for lens in ([(2, 0, 1), (0, 2, 1), (1, 1, 1)] if q else length_patterns(3, 2, 4)):
             n = sum(lens)
